@@ -218,6 +218,73 @@ def _fallback(solver, timeout_s):
         os.unlink(path)
 
 
+def _smt2(pc, extra):
+    s = z3.Solver()
+    for f in pc:
+        s.add(f)
+    s.add(extra)
+    return "(set-logic ALL)\n" + s.to_smt2()
+
+
+def prepare_queries(ob):
+    """all query texts of one obligation instance, generated in the main thread (z3 objects are not shared
+    between threads): [ [ (label, smt2) ... in portfolio order ] per sub-goal ]"""
+    plans = []
+    for sub in split_goal(ob.goal):
+        neg = z3.Not(sub)
+        variants = [(sname, _smt2(sliced, neg)) for sname, sliced in _slices(ob.pc, sub)]
+        variants.append(("full", _smt2(ob.pc, neg)))
+        plans.append(variants)
+    return plans
+
+
+def _run_cli(cmd, text, wall):
+    fd, path = tempfile.mkstemp(suffix=".smt2", prefix="pyvc_")
+    os.write(fd, text.encode())
+    os.close(fd)
+    try:
+        out = subprocess.run(cmd + [path], capture_output=True, text=True, timeout=wall).stdout.strip().split("\n")[0]
+    except Exception:
+        out = "unknown"
+    finally:
+        os.unlink(path)
+    return out if out in ("sat", "unsat") else "unknown"
+
+
+def solve_plans(plans, timeout_ms):
+    """portfolio over solver binaries (runs in a worker thread; only strings are touched).
+    Returns (result, backend, ms)."""
+    t0 = time.time()
+    backends = set()
+    tsec = max(3, timeout_ms // 3000)
+    for variants in plans:
+        done = False
+        for label, text in variants[:-1]:
+            r = _run_cli(["z3-new", "-t:1500"], text, 10)
+            if r == "unsat":
+                backends.add("z3-5.1")
+                done = True
+                break
+        if done:
+            continue
+        full = variants[-1][1]
+        r = _run_cli(["z3-new", "-t:%d" % min(QUICK_MS, timeout_ms)], full, 10 + QUICK_MS // 1000)
+        be = "z3-5.1"
+        if r == "unknown":
+            r = _run_cli(["/usr/bin/cvc5", "--strings-exp", "--tlimit=%d" % (tsec * 1000)], full, tsec + 5)
+            be = "cvc5-1.0.3"
+        if r == "unknown":
+            r = _run_cli(["/usr/bin/z3", "-T:%d" % tsec], full, tsec + 5)
+            be = "z3-4.8.12"
+        if r == "unknown" and timeout_ms > QUICK_MS:
+            r = _run_cli(["z3-new", "-t:%d" % timeout_ms], full, timeout_ms // 1000 + 10)
+            be = "z3-5.1"
+        backends.add(be)
+        if r != "unsat":
+            return r, "+".join(sorted(backends)), (time.time() - t0) * 1000
+    return "unsat", "+".join(sorted(backends)) or "z3-5.1", (time.time() - t0) * 1000
+
+
 def _model_values(model, watch):
     out = {}
     for name, term in watch.items():
@@ -289,6 +356,8 @@ def verify_contract(contract: Contract, registry: Registry, timeout_ms=30000, lo
     reach_done = False
     tmo = contract.timeout_ms or timeout_ms
     outcomes = {"normal": 0, "raise": {}}
+    parallel = refute is None and not os.environ.get("PYVC_SERIAL") and not os.environ.get("PYVC_DUMP")
+    pending = []
 
     def record(ob, watch):
         nonlocal solver_ms
@@ -355,7 +424,7 @@ def verify_contract(contract: Contract, registry: Registry, timeout_ms=30000, lo
                 except Exception:
                     res.model = None
             elif res.status is None:
-                res.status = "not-refuted" if kind == "canary" else "unreachable"
+                res.status = "not-refuted" if kind == "canary" else ("unreachable" if r == "unsat" else "reach-unknown")
 
     while worklist:
         script = worklist.pop()
@@ -470,7 +539,50 @@ def verify_contract(contract: Contract, registry: Registry, timeout_ms=30000, lo
             if ob.key in seen_keys:
                 continue
             seen_keys.add(ob.key)
-            record(ob, watch)
+            if parallel and ob.expect == "unsat":
+                if only is not None and ob.name not in only:
+                    continue
+                try:
+                    pending.append((ob, watch, prepare_queries(ob)))
+                except z3.Z3Exception as ze:
+                    undecided_paths.append("z3 exception while dumping %s: %s" % (ob.name, ze))
+            else:
+                record(ob, watch)
+
+    if pending:
+        import concurrent.futures as _cf
+        with _cf.ThreadPoolExecutor(max_workers=int(os.environ.get("PYVC_SOLVER_JOBS", "12"))) as ex:
+            futs = [ex.submit(solve_plans, plans, tmo) for _, _, plans in pending]
+            outs = [f.result() for f in futs]
+        for (ob, watch, plans), (r, be, ms) in zip(pending, outs):
+            res = results.get(ob.name)
+            if res is None:
+                res = results[ob.name] = ObResult(ob.name, "obligation")
+                res.note, res.line = ob.note, ob.line
+            res.instances += 1
+            res.ms += ms
+            solver_ms += ms
+            res.backend = be if res.backend in ("z3-5.1(api)", be) else res.backend + "," + be
+            if not res.smt_head:
+                txt = plans[-1][-1][1]
+                res.smt_size = len(txt)
+                res.smt_head = "\n".join(txt.split("\n")[-6:])[:600]
+            if r == "unsat":
+                if res.status is None:
+                    res.status = "discharged"
+            elif r == "sat":
+                if res.status != "refuted":
+                    res.status = "refuted"
+                    s2 = _mk_solver(ob.pc, z3.Not(ob.goal), 5000)
+                    try:
+                        if str(s2.check()) == "sat":
+                            res.model = _model_values(s2.model(), watch)
+                    except Exception:
+                        res.model = None
+            else:
+                if res.status in (None, "discharged"):
+                    res.status = "undecided"
+                    res.reason = "solver: unknown/timeout"
 
     # declared outcomes must be reachable (vacuity guard): normal return unless the contract says otherwise
     out = {
